@@ -23,7 +23,7 @@ RULE = ('tier 1: for each program (3-8 operations covering every mutating method
         'random instants into a 2-thread child. evaluations = kill runs judged; distinct_nontrivial = distinct '
         '(program, kill gate) pairs + distinct (syscall, n) kills')
 DISTINCT = ('kill_points', 'syscall_kills', 'random_kills')
-REQUIRED = ('gate_kills_judged', 'kills_during_open', 'kills_during_first_write', 'programs_wal', 'programs_rollback_journal', 'programs_fully_enumerated', 'kills_inside_block', 'kills_at_file_ops',
+REQUIRED = ('gate_kills_judged', 'kills_during_open', 'kills_during_first_write', 'programs_wal', 'programs_rollback_journal', 'blocked_commit_runs_with_failed_commit', 'programs_fully_enumerated', 'kills_inside_block', 'kills_at_file_ops',
             'kills_at_sql_gates', 'debris_seen_unknown_files_or_dirs', 'syscall_kills_judged', 'random_kills_judged')
 ASSUMPTIONS = ('SIGKILL is process death, not power loss (page cache survives); durability against power failure is not '
                'examined', 'sequential semantics of each operation are taken from a dry run of the same program '
@@ -495,6 +495,152 @@ def open_kill_tier(dc, sc, res, kind, initial, label, stride=1, offset=0):
         sc.drop(init)
 
 
+# ------------------------------- tier 1c: a reader keeps the COMMIT of a rollback-journal database waiting
+def blocked_commit_tier(dc, sc, res, rng, label):
+    """Another connection holds a read transaction, so in a rollback-journal database the writer's COMMIT cannot get
+    its exclusive lock within the timeout and fails.  The writer goes on with further calls on the same handle and is
+    then killed.  Every call that RETURNED normally must be present afterwards (calls that raised promise nothing)."""
+    import signal
+    import sqlite3
+    journal = rng.choice(JOURNALS)
+    d = sc.new('bc')
+    init = dc.Cache(d, sqlite_journal_mode=journal, **SETTINGS)
+    init.set('old-inline', 'o')
+    init.set('old-file', 'O' * 300)
+    init.set('n', 10)
+    init.close()
+    log = d + '.log'
+    go = d + '.go'
+    with_reader = rng.random() < 0.8
+    reader = None
+    big = lambda t: (t + ';') * 60      # noqa: E731
+    ops = [('set', 'k0', 'v0'), ('set', 'k1', big('v1')), ('incr', 'n', 5), ('delete', 'old-inline'),
+           ('set', 'old-file', 'replaced'), ('block', 'k2', big('v2'), 'k3', 'v3'), ('pop', 'k0')]
+    rng.shuffle(ops)
+
+    def child():
+        code = 0
+        try:
+            fd = os.open(log, os.O_WRONLY | os.O_CREAT | os.O_APPEND, 0o644)
+            cache = dc.Cache(d, timeout=0.02)
+            cache.get('n')
+            os.write(fd, (json.dumps({'opened': True}) + '\n').encode())
+            import time as _t
+            t_end = _t.monotonic() + 30
+            while not os.path.exists(go) and _t.monotonic() < t_end:      # the reader arrives once the handle is open
+                _t.sleep(0.002)
+            for i, op in enumerate(ops):
+                try:
+                    if op[0] == 'set':
+                        cache.set(op[1], op[2])
+                    elif op[0] == 'incr':
+                        cache.incr(op[1], op[2])
+                    elif op[0] == 'delete':
+                        cache.delete(op[1])
+                    elif op[0] == 'pop':
+                        cache.pop(op[1])
+                    else:
+                        with cache.transact():
+                            cache.set(op[1], op[2])
+                            cache.set(op[3], op[4])
+                    os.write(fd, (json.dumps({'returned': i}) + '\n').encode())
+                except Exception as exc:      # noqa: BLE001
+                    os.write(fd, (json.dumps({'raised': i, 'error': type(exc).__name__}) + '\n').encode())
+            os.kill(os.getpid(), signal.SIGKILL)
+        except BaseException:      # noqa: BLE001
+            code = 3
+        os._exit(code)
+
+    try:
+        import time as _t
+        pid = os.fork()
+        if pid == 0:
+            try:
+                child()
+            finally:
+                os._exit(3)
+        t_end = _t.monotonic() + 30
+        while _t.monotonic() < t_end and not any('opened' in r for r in crash.read_log(log)):
+            _t.sleep(0.005)
+        if with_reader:
+            reader = sqlite3.connect(os.path.join(d, 'cache.db'), isolation_level=None, timeout=5)
+            reader.execute('BEGIN')
+            reader.execute('SELECT COUNT(*) FROM Cache').fetchall()     # SHARED lock until this transaction ends
+        open(go, 'w').close()
+        t_end = _t.monotonic() + 60
+        how = 'watchdog'
+        while _t.monotonic() < t_end:
+            wpid, status = os.waitpid(pid, os.WNOHANG)
+            if wpid:
+                how = 'killed' if os.WIFSIGNALED(status) else 'exited'
+                break
+            _t.sleep(0.002)
+        if how == 'watchdog':
+            os.kill(pid, signal.SIGKILL)
+            os.waitpid(pid, 0)
+        recs = crash.read_log(log)
+        if reader is not None:
+            reader.execute('ROLLBACK')
+            reader.close()
+            reader = None
+        if how != 'killed':
+            res.inconclusive.append('%s: child ended as %s' % (label, how))
+            return
+        returned = [r['returned'] for r in recs if 'returned' in r]
+        raised = [(r['raised'], r['error']) for r in recs if 'raised' in r]
+        wit = {'label': label, 'tier': 'blocked-commit', 'journal_mode': journal, 'reader_holding_shared_lock': with_reader,
+               'program': ops, 'calls_that_returned': returned, 'calls_that_raised': raised}
+        res.count('evaluations')
+        res.count('blocked_commit_runs')
+        if raised:
+            res.count('blocked_commit_runs_with_failed_commit')
+        res.seen('kill_points', ('blocked-commit', journal, with_reader, tuple(returned)))
+        fresh = dc.Cache(d, timeout=5)
+        try:
+            # replay what returned over the initial content, in program order
+            want = {'old-inline': 'o', 'old-file': 'O' * 300, 'n': 10}
+            for i in returned:
+                op = ops[i]
+                if op[0] == 'set':
+                    want[op[1]] = op[2]
+                elif op[0] == 'incr':
+                    want[op[1]] = want.get(op[1], 0) + op[2]
+                elif op[0] in ('delete', 'pop'):
+                    want.pop(op[1], None)
+                else:
+                    want[op[1]], want[op[3]] = op[2], op[4]
+            got = {k: fresh.get(k) for k in fresh}
+            if raised and not with_reader:
+                res.violation('calls raised although nothing kept the database busy: %r' % (raised[:3],), wit)
+                return
+            if not raised and got != want:
+                res.violation('calls that returned before the kill are not (all) present afterwards',
+                              dict(wit, got=sorted(got.items())[:8], expected=sorted(want.items())[:8]))
+                return
+            if raised:
+                # a call that raised may or may not have taken effect; the ones that returned must be there
+                for k, v in want.items():
+                    touched_by_raised = any(k in [x for x in ops[i][1:] if isinstance(x, str)] for i, _ in raised)
+                    if not touched_by_raised and got.get(k, '<MISSING>') != v:
+                        res.violation('a call on %r returned normally before the kill but its effect is gone afterwards '
+                                      '(found %r, expected %r)' % (k, got.get(k, '<MISSING>'), v), wit)
+                        return
+                for k in got:
+                    if k not in want and not any(k in [x for x in ops[i][1:] if isinstance(x, str)] for i, _ in raised):
+                        res.violation('key %r was removed by a call that returned normally but is present after the kill' % (k,), wit)
+                        return
+        finally:
+            fresh.close()
+        judge(dc, res, d, 'cache', None, [crash.contents(dc, d, 'cache')], label, wit)
+    finally:
+        if reader is not None:
+            reader.close()
+        for fn in (log, go):
+            if os.path.exists(fn):
+                os.unlink(fn)
+        sc.drop(d)
+
+
 # --------------------------------------------------------------- tier 2: strace
 SYSCALLS = ['pwrite64', 'fdatasync', 'fsync', 'ftruncate', 'unlink', 'rmdir', 'mkdir', 'rename', 'openat', 'pwritev']
 
@@ -717,6 +863,11 @@ def run_shard(tier, seed, shard, nshards, res):
             open_kill_tier(dc, sc, res, kind, initial, 'c07 open-kill kind=%s directory=%s' % (kind, initial))
             if res.counters.get('violations_raw', 0) > 12:
                 return
+        # tier 1c: the COMMIT of a rollback-journal database kept waiting by a reader
+        probe.reset()
+        for i in range(3 if tier == 'quick' else 30):
+            rng = common.rng_for(seed, 'c07b', shard, i)
+            blocked_commit_tier(dc, sc, res, rng, 'c07 blocked commit seed=%d shard=%d i=%d' % (seed, shard, i))
         # tier 2: kills inside SQLite via strace syscall injection
         probe.reset()
         if strace_available():
